@@ -104,6 +104,11 @@ type c14Unit struct {
 // The Go side renders with the same grammar from reflection (see c14GoPrelude).
 
 func c14CanonItem(it stackitem.Item, typ string, structs map[string][]string) string {
+	if strings.HasPrefix(typ, "*") {
+		if _, ok := it.(stackitem.Null); ok {
+			return "null"
+		}
+	}
 	typ = strings.TrimPrefix(typ, "*")
 	switch {
 	case typ == "int":
